@@ -93,9 +93,24 @@ def step_of_stmt(st, roles, where, expand_call=None):
             if ok:
                 inner = steps_of_body(hb[0].body, roles, where, expand_call)
                 ok = len(inner) == 1 and inner[0].startswith("SUnlink ")
+        if ok:
+            return ["SMoveElseUnlink %s %s" % (body[0][len("SMove "):], inner[0][len("SUnlink "):])]
+        # try: <move a b>  except OSError: (try: <unlink b> except OSError: pass); <the same move again>
+        ok = (len(st.handlers) == 1 and (st.handlers[0].type is None or U(st.handlers[0].type) in ("OSError", "EnvironmentError", "Exception"))
+              and not st.orelse and not st.finalbody and len(body) == 1 and body[0].startswith("SMove "))
+        if ok:
+            hb = strip_doc(st.handlers[0].body)
+            ok = (len(hb) == 2 and isinstance(hb[0], ast.Try) and len(hb[0].handlers) == 1 and not hb[0].orelse and not hb[0].finalbody
+                  and (hb[0].handlers[0].type is None or U(hb[0].handlers[0].type) in ("OSError", "EnvironmentError", "Exception"))
+                  and [U(x) for x in hb[0].handlers[0].body] == ["pass"])
+            if ok:
+                inner = steps_of_body(hb[0].body, roles, where, expand_call)
+                again = step_of_stmt(hb[1], roles, where, expand_call)
+                dst = body[0].split()[2]
+                ok = inner == ["SUnlink %s" % dst] and again == body
         if not ok:
             raise P.Untranslatable("%s: unrecognised try statement: %s" % (where, t))
-        return ["SMoveElseUnlink %s %s" % (body[0][len("SMove "):], inner[0][len("SUnlink "):])]
+        return ["SMoveRetryAfterUnlink %s" % body[0][len("SMove "):]]
     if isinstance(st, ast.Assert):
         if roles.mentions(U(st.test)):
             raise P.Untranslatable("%s: assertion on a file variable: %s" % (where, t))
